@@ -12,6 +12,7 @@ ROOT = Path(__file__).resolve().parent.parent
 COMMON_ASSUMPTIONS = [
     "firmware is compiled with host clang++ (-std=gnu++17, exceptions on) against the mock Arduino core in /verif/mock, not avr-gcc and the real core/libraries (none is installed)",
     "host int is 32-bit (AVR int is 16-bit): alphabets keep |values| < 2^15",
+    "where C++ leaves the order of evaluation open (arguments of one helper call), clang++ evaluates left to right like Python; avr-g++ may not - the device oracle cannot see that",
     "the mock core (/verif/mock) and the CPython interpreter are the trusted base",
 ]
 
